@@ -150,6 +150,8 @@ def check_offline_variant(ix, rep, mon):
     rep.analysed(f)
     rep.unit(f.module.rel)
     slot = '%s/%s' % (mon.kind, sem)
+    if mon.kind.startswith('dense'):
+        check_pair_source(rep, f, f.qual, slot, ix=ix)
     nodep = f.node.args.args[1].arg
     # call to the shared base that returns (values, verdicts)
     base_call = None
@@ -279,6 +281,8 @@ def check_online_operation(ix, rep, opc, time):
     rep.analysed(f)
     rep.unit(f.module.rel)
     slot = '%s-online' % time
+    if time == 'dense':
+        check_pair_source(rep, f, '%s.update' % opc.name, slot, ix=ix)
     chain = [s for s in f.node.body if isinstance(s, ast.If)]
     if len(chain) != 1:
         raise AnalysisError('%s: expected one semantics chain' % f.where)
@@ -502,4 +506,92 @@ def check_standard_taint(ix, rep):
             for a in ast.walk(f.node):
                 if isinstance(a, ast.Attribute) and a.attr in forbidden:
                     rep.fail('R-TAINT', m.rel, f.qual, 'helper:%s' % a.attr, 'helper reads `%s`' % ast.unparse(a), a.lineno)
+    return n
+
+
+def _co_built(ix, f, a, b):
+    """a and b are unpacked from one call whose callee appends to both result lists in the same blocks with the same time expression"""
+    if ix is None:
+        return False
+    for st in ast.walk(f.node):
+        if isinstance(st, ast.Assign) and isinstance(st.targets[0], ast.Tuple) and isinstance(st.value, ast.Call):
+            names = [e.id for e in st.targets[0].elts if isinstance(e, ast.Name)]
+            if a in names and b in names and len(names) == len(st.targets[0].elts):
+                g = None
+                if f.owner is not None:
+                    g = D._delegation(ix, f.owner, f.owner, st.value)
+                if g is None:
+                    ent = ix.resolve_expr(f.module, st.value.func) if isinstance(st.value.func, (ast.Name, ast.Attribute)) else None
+                    g = ent if hasattr(ent, 'node') and isinstance(getattr(ent, 'node', None), ast.FunctionDef) else None
+                if g is None:
+                    return False
+                rets = [r for r in ast.walk(g.node) if isinstance(r, ast.Return) and isinstance(r.value, ast.Tuple)]
+                if len(rets) != 1:
+                    return False
+                rn = [e.id for e in rets[0].value.elts if isinstance(e, ast.Name)]
+                if len(rn) != len(names):
+                    return False
+                la, lb = rn[names.index(a)], rn[names.index(b)]
+
+                def appends(block, nm):
+                    return [c for s2 in block if isinstance(s2, ast.Expr) and isinstance(s2.value, ast.Call) for c in [s2.value]
+                            if isinstance(c.func, ast.Attribute) and c.func.attr == 'append' and isinstance(c.func.value, ast.Name) and c.func.value.id == nm]
+                total_a = total_b = 0
+                for blk_owner in ast.walk(g.node):
+                    for field in ('body', 'orelse'):
+                        blk = getattr(blk_owner, field, None)
+                        if isinstance(blk, list) and blk and isinstance(blk[0], ast.stmt):
+                            xa, xb = appends(blk, la), appends(blk, lb)
+                            total_a += len(xa)
+                            total_b += len(xb)
+                            if len(xa) != len(xb):
+                                return False
+                            for ca, cb in zip(xa, xb):
+                                ea, eb = ca.args[0], cb.args[0]
+                                if not (isinstance(ea, ast.List) and isinstance(eb, ast.List) and ea.elts and eb.elts and ast.unparse(ea.elts[0]) == ast.unparse(eb.elts[0])):
+                                    return False
+                return total_a > 0 and total_a == total_b
+    return False
+
+
+def check_pair_source(rep, f, sym, slot, rule='R-SHAPE', ix=None):
+    """every [time, value] sample built inside a loop over a list L takes its time-stamp from the element of L the loop is at:
+    two lists derived from the same operands need not have the same length (verdicts and values are thinned independently)"""
+    n = 0
+    for lp in ast.walk(f.node):
+        if not isinstance(lp, ast.For):
+            continue
+        it = lp.iter
+        idx = elem = lst = None
+        if isinstance(it, ast.Call) and isinstance(it.func, ast.Name) and it.func.id == 'range' and len(it.args) == 1 \
+                and isinstance(it.args[0], ast.Call) and getattr(it.args[0].func, 'id', None) == 'len' and isinstance(it.args[0].args[0], ast.Name) and isinstance(lp.target, ast.Name):
+            idx, lst = lp.target.id, it.args[0].args[0].id
+        elif isinstance(it, ast.Call) and isinstance(it.func, ast.Name) and it.func.id == 'enumerate' and isinstance(it.args[0], ast.Name) and isinstance(lp.target, ast.Tuple) \
+                and len(lp.target.elts) == 2 and all(isinstance(e, ast.Name) for e in lp.target.elts):
+            idx, elem, lst = lp.target.elts[0].id, lp.target.elts[1].id, it.args[0].id
+        elif isinstance(it, ast.Name) and isinstance(lp.target, ast.Name):
+            elem, lst = lp.target.id, it.id
+        else:
+            continue
+        for c in ast.walk(lp):
+            if isinstance(c, ast.Call) and isinstance(c.func, ast.Attribute) and c.func.attr == 'append' and c.args and isinstance(c.args[0], ast.List) and len(c.args[0].elts) == 2:
+                t = c.args[0].elts[0]
+                src = None
+                if isinstance(t, ast.Subscript) and isinstance(t.slice, ast.Constant) and t.slice.value == 0:
+                    b = t.value
+                    if isinstance(b, ast.Subscript) and isinstance(b.value, ast.Name) and isinstance(b.slice, ast.Name) and b.slice.id == idx:
+                        src = b.value.id
+                    elif isinstance(b, ast.Name) and b.id == elem:
+                        src = lst
+                if src is None:
+                    continue
+                n += 1
+                if src == lst:
+                    rep.ok(rule, f.module.rel, sym, '%s:time-of:%s' % (slot, lst), 'the time-stamp comes from the element of `%s` the loop is at' % lst, c.lineno)
+                elif _co_built(ix, f, src, lst):
+                    rep.ok(rule, f.module.rel, sym, '%s:time-of:%s' % (slot, lst), '`%s` and `%s` are built together, sample by sample, by the same call' % (src, lst), c.lineno)
+                else:
+                    rep.fail(rule, f.module.rel, sym, '%s:time-of:%s' % (slot, lst), 'the loop runs over `%s` but the emitted sample takes its time-stamp from `%s[%s]`: the two lists are '
+                             'thinned independently (equal consecutive values are dropped) and need not have the same length, so verdicts get the time-stamps of other samples'
+                             % (lst, src, idx), c.lineno)
     return n
